@@ -1,6 +1,7 @@
 SPECIFICATION Spec
 CONSTANTS
   MaxArgv = 2
+  MaxUpdate = 1
   EmitOn = TRUE
-INVARIANTS Emit
+INVARIANTS Emit RoundTrip EnumNamesMapBack
 CHECK_DEADLOCK FALSE
